@@ -225,8 +225,20 @@ pub fn zone_switch_case(rec: &mut Rec, rng: &mut Rng, prop: &'static str) {
     let shown = |d: &DateTime| format!("{} | {} | {}", summary(d), d.format(pat), d);
     let r = trap(|| {
         let b = mk(i).set_offset(Offset::Local);
-        let first = in_zone(&za, |oa| (oa, shown(&b), shown(&mk(i).set_offset(Offset::Fixed(oa)))));
-        let second = in_zone(&zb, |ob| (ob, shown(&b), shown(&mk(i).set_offset(Offset::Fixed(ob)))));
+        // first the bare sequence — the same call on the same value, only the system zone changes in between
+        // (nothing else is formatted in between, so a one-entry "last result" memo would still hold the first text)
+        let f1 = in_zone(&za, |_| (b.format(pat), b.to_string()));
+        let f2 = in_zone(&zb, |_| (b.format(pat), b.to_string()));
+        let first = in_zone(&za, |oa| {
+            let fx = mk(i).set_offset(Offset::Fixed(oa));
+            let want = (fx.format(pat), fx.to_string());
+            (oa, format!("{} | {:?}", shown(&b), f1), format!("{} | {:?}", shown(&fx), want))
+        });
+        let second = in_zone(&zb, |ob| {
+            let fx = mk(i).set_offset(Offset::Fixed(ob));
+            let want = (fx.format(pat), fx.to_string());
+            (ob, format!("{} | {:?}", shown(&b), f2), format!("{} | {:?}", shown(&fx), want))
+        });
         (first, second)
     });
     rec.api("Offset::Local under a changing system zone");
